@@ -29,10 +29,12 @@ theorem statesOk_iff (g : Graph) (init : Store) (t : List MEv) :
 
 /-- … and "at hand" means: in the starting worker's own pool, or in a listed location the worker may
 use under the test's pool scope (shared pool: `shared` enabled; a worker of the same swarm: `swarm`;
-of another swarm: `cluster`), or its producing class / the creation of the object has a non-passing
+of another swarm: `cluster`), or nobody in the graph produces it for this test (externally provided state of a
+permanent object, taken as given), or its producing class / the creation of the object has a non-passing
 attempt earlier in the run.  The store is the one the run's own events imply (`replayStore`). -/
 theorem stateAvailable_iff (g : Graph) (init : Store) (t : List MEv) (i : Nat) (e : MEv) (n : Nat) (vs : String × String) :
     stateAvailable g init t i e n vs = true ↔
+      ((g.node n).setup.any (fun (_, vms) => vms.contains vs.1)) = false ∨
       (storeGet (replayStore g init (t.take i)) (g.worker e.w).id).contains vs = true ∨
       (∃ loc ∈ (match e.locs.find? (·.1 == vs.1) with | some (_, l) => l | none => []),
           allowedLoc g n e.w loc = true ∧
@@ -41,12 +43,14 @@ theorem stateAvailable_iff (g : Graph) (init : Store) (t : List MEv) (i : Nat) (
   unfold stateAvailable
   simp only [Bool.or_eq_true, List.any_eq_true, Bool.and_eq_true]
   constructor
-  · rintro ((h | h) | h)
-    · exact Or.inl h
+  · rintro (((h | h) | h) | h)
+    · exact Or.inl (by simpa using h)
     · exact Or.inr (Or.inl h)
-    · exact Or.inr (Or.inr h)
-  · rintro (h | h | h)
-    · exact Or.inl (Or.inl h)
+    · exact Or.inr (Or.inr (Or.inl h))
+    · exact Or.inr (Or.inr (Or.inr h))
+  · rintro (h | h | h | h)
+    · exact Or.inl (Or.inl (Or.inl (by simpa using h)))
+    · exact Or.inl (Or.inl (Or.inr h))
     · exact Or.inl (Or.inr h)
     · exact Or.inr h
 
